@@ -21,6 +21,9 @@ func coreC15(tier string) []RunSpec {
 	for k := 0; k < 6; k++ {
 		out = append(out, RunSpec{Profile: "core:late-resolution", Params: map[string]int{"conc": 0, "late": 1, "k": k}})
 	}
+	for k := 0; k < 12; k++ {
+		out = append(out, RunSpec{Profile: "core:melt-poll-race", Params: map[string]int{"conc": 0, "mpr": 1, "k": k}})
+	}
 	return out
 }
 
@@ -55,9 +58,16 @@ func runC15(rc *RunCtx) {
 		}
 		rc.S.Probe("c15_late_resolution")
 	}
+	if rc.P("mpr", 0) == 1 {
+		for i := 0; i < 4; i++ {
+			m.step = -20 + i
+			m.StepMeltPollRace()
+		}
+	}
 	conc := rc.P("conc", -1)
 	// weights:       fund swap melt resolve replay dup race checkstate restore restart clock adv internal rotate
-	weights := []int{1, 3, 3, 2, 1, 0, 0, 5, 4, 1, 2, 0, 1, 0, 1} // clock jumps: payments may outlive their quote's expiry
+	// (clock jumps: payments may outlive their quote's expiry; the last two: stale-release and melt-with-polls races)
+	weights := []int{1, 3, 3, 2, 1, 0, 0, 5, 4, 1, 2, 0, 1, 0, 1, 1, 3}
 	rc.StepLoop(4, 16, func(i int) {
 		m.step = i
 		c := T.Chance("conc", 1, 3)
